@@ -18,12 +18,17 @@ from mc import core, gen
 ID = "C04"
 LEVEL = "exploration"
 RULE = (
-    "one map per configuration (default / Submount / Subdomain / variable subdomain / host_matching) with one "
-    "rule per converter form; values: every string of <= 2 atoms (3 in thorough) over a 27-atom alphabet "
+    "one map per configuration (default incl. Submount / Subdomain / per-method rules of one endpoint / websocket "
+    "rules, defaults twins declared after the general rule, variable subdomain, host_matching incl. host rules in "
+    "a Submount, default_subdomain, sort_parameters, rule factories: EndpointPrefix, RuleTemplate with templated "
+    "defaults, nested Submount / Subdomain / EndpointPrefix) with one rule per converter form; values: every string of <= 2 atoms (3 in thorough) over a 27-atom alphabet "
     "(letters, non-ASCII, astral, space, every URL delimiter, '%', '%2F', '.', backslash, control characters "
     "incl. newline) filtered by the converter's documented domain, ints incl. signed / fixed_digits, floats with "
     "positional str(), UUIDs, paths of 2-3 such segments; each x script_name {/, /app, /app/} x force_external x "
-    "scheme {http, https} x extra query {none, scalar, list}; build -> deliver -> match -> build. non-trivial = "
+    "scheme {http, https} x extra query {none, scalar, list}, and for every value the other argument forms of build "
+    "(method=, append_unknown=False, url_scheme= another scheme, url_scheme='' protocol-relative, MultiDict values); "
+    "build -> deliver -> match -> build; plus fixed request paths whose match result must rebuild to the same path "
+    "(and denote the stated endpoint/values). non-trivial = "
     "distinct (endpoint, value) whose built URL differs from the plain concatenation of rule text and str(value) "
     "(quoting, padding or defaults were exercised) or that crosses a subdomain / host."
 )
@@ -38,7 +43,8 @@ ASSUMPTIONS = [
 ]
 
 from werkzeug.exceptions import HTTPException  # noqa: E402
-from werkzeug.routing import Map, Rule, Subdomain, Submount  # noqa: E402
+from werkzeug.datastructures import MultiDict  # noqa: E402
+from werkzeug.routing import EndpointPrefix, Map, Rule, RuleTemplate, Subdomain, Submount  # noqa: E402
 from werkzeug.routing.exceptions import RequestRedirect  # noqa: E402
 
 ATOMS = ["a", "é", " ", ";", "?", "#", "%", "+", "&", "=", ":", "@", "~", '"', "<", "𝄞", "%2F", ".", "\\",
@@ -78,14 +84,15 @@ FLOATS = [0.0, 1.5, 10.25, 100.125, 123456789.125, 0.001]
 
 
 def value_sets(tier):
-    d = 3 if tier == "thorough" else 2
+    T = tier == "thorough"
+    d = 3 if T else 2
     S = strings(d)
     S2 = strings(2)
     P = paths(tier)
     return {
         "s": S, "s2": [v for v in S2 if len(v) == 2], "s3": [v for v in S if len(v) >= 2],
         "smax": [v for v in S2 if len(v) <= 2],
-        "sb": S, "aff": S, "lit": S, "two": S2,
+        "sb": S, "aff": S, "lit": S, "two": S,
         "i": INTS, "si": INTS + [-x for x in INTS if x], "fd": [0, 7, 12, 123, 999],
         # signed + fixed_digits: the sign counts as one position (to_url zfill / to_python len agree on that)
         "sfd": [0, 7, -5, 12, -12, 123, -123, 999, -999, 9999],
@@ -97,7 +104,16 @@ def value_sets(tier):
         "p": P, "pb": P, "pe": P[: len(P) // 2], "pp": P[:200],
         "sm": S, "sd": S, "def": [1, 2, 10], "defs": ["en", "é", "a b"],
         # other configurations
-        "su": S2[:120], "h": S2[:120], "hv": S2[:120], "hs": S2[:60], "hsv": S2[:60],
+        "su": S2 if T else S2[:120], "h": S if T else S2[:120], "hv": S2 if T else S2[:120],
+        "hs": S2 if T else S2[:60], "hsv": S2 if T else S2[:60],
+        # round 2: build(method=), websocket rules, host= on a map without host matching, default_subdomain,
+        # sort_parameters, rule factories and their nestings
+        "m_default": S if T else S2[:200], "m_post": S if T else S2[:200], "m_put": S2 if T else S2[:60],
+        "w": S if T else S2[:200], "wsub": S2 if T else S2[:60], "hi": S2 if T else S2[:60],
+        "dx": S if T else S2[:120], "dy": S2 if T else S2[:120], "so": S2 if T else S2[:120],
+        "ep.e": S if T else S2[:200], "tpl.show": (S if T else S2[:200]) + ["idx"], "nest": S if T else S2[:200],
+        "x.k": [0, 7, 12, 2 ** 64], "tp": P if T else P[:300],
+        "sv": S2 if T else S2[:120], "m.mm": S2 if T else S2[:120], "deep.a.b": S if T else S2[:120],
     }
 
 
@@ -130,6 +146,38 @@ def rules_default():
         Rule("/def/<int:v>", endpoint="def"),
         Rule("/defs/", endpoint="defs", defaults={"v": "en"}),
         Rule("/defs/<v>/", endpoint="defs"),
+        # one endpoint, different URLs per method: build(method=...) has to pick the rule the request will hit
+        # (the GET rule is NOT declared first: without method= the default method's rule has to be found)
+        Rule("/mp/<v>", endpoint="m", methods=["POST"]),
+        Rule("/mg/<v>", endpoint="m", methods=["GET"]),
+        Rule("/mu/<v>", endpoint="m", methods=["PUT", "DELETE"]),
+        # a websocket rule: always built external with ws:// or wss://
+        Rule("/w/<v>", endpoint="w", websocket=True),
+        Rule("/wsub/<v>", endpoint="wsub", websocket=True, subdomain="sd"),
+        # host= is documented to be used only with host_matching; here it must not matter
+        Rule("/hi/<v>", endpoint="hi", host="ignored.example.org"),
+    ]
+
+
+def rules_defsub():
+    return [Rule("/x/<v>", endpoint="dx"), Rule("/y/<v>", endpoint="dy", subdomain="api")]
+
+
+def rules_sorted():
+    return [Rule("/so/<v>", endpoint="so")]
+
+
+def rules_factories():
+    return [
+        EndpointPrefix("ep.", [Rule("/e/<v>", endpoint="e")]),
+        RuleTemplate([Rule("/$n/<v>", endpoint="$n.show"),
+                      Rule("/$n/", endpoint="$n.show", defaults={"v": "$dv"})])(n="tpl", dv="idx"),
+        Submount("/a1", [Submount("/a2/", [Rule("/n/<v>", endpoint="nest")])]),
+        Subdomain("sd", [Submount("/sm", [EndpointPrefix("x.", [Rule("/k/<int:v>/", endpoint="k", strict_slashes=False)])])]),
+        Submount("/t", [RuleTemplate([Rule("/$n/<path:v>", endpoint="$n")])(n="tp")]),
+        Subdomain("<user>", [Rule("/sv/<v>", endpoint="sv")]),
+        EndpointPrefix("m.", [Submount("/pm", [Rule("/mm/<v>", endpoint="mm", methods=["POST"])])]),
+        EndpointPrefix("deep.", [EndpointPrefix("a.", [Subdomain("sd", [Submount("/q", [Rule("/<v>/z", endpoint="b")])])])]),
     ]
 
 
@@ -157,9 +205,13 @@ def rules_host():
 
 CONFIGS = {
     "default": (rules_default, {}, ["s", "s2", "s3", "smax", "sb", "aff", "lit", "two", "i", "si", "fd", "sfd", "imm", "f", "sf",
-                                    "any", "u", "p", "pb", "pe", "pp", "sm", "sd", "def", "defs"]),
+                                    "any", "u", "p", "pb", "pe", "pp", "sm", "sd", "def", "defs",
+                                    "m_default", "m_post", "m_put", "w", "wsub", "hi"]),
     "defrev": (rules_defrev, {}, ["list", "k", "n"]),
     "subvar": (rules_subvar, {}, ["su"]),
+    "defsub": (rules_defsub, {"default_subdomain": "www"}, ["dx", "dy"]),
+    "sorted": (rules_sorted, {"sort_parameters": True}, ["so"]),
+    "fact": (rules_factories, {}, ["ep.e", "tpl.show", "nest", "x.k", "tp", "sv", "m.mm", "deep.a.b"]),
     "host": (rules_host, {"host_matching": True}, ["h", "hv", "hs", "hsv"]),
 }
 PATH_EPS = {"p", "pb", "pe", "pp"}
@@ -168,7 +220,19 @@ SCRIPTS = ["/", "/app", "/app/"]
 EXTRAS = [None, {"q": "a b"}, {"q": ["1", "é"], "r": "&="}]
 
 
+# unit endpoint name -> (werkzeug endpoint, method passed to build() and used by the request)
+EP_REAL = {"m_default": ("m", None), "m_post": ("m", "POST"), "m_put": ("m", "DELETE"), "m.mm": ("m.mm", "POST")}
+WS_EPS = {"w", "wsub"}
+# the subdomain the rule is declared on (default: the map's default subdomain)
+EP_SUB = {"sd": "sd", "wsub": "sd", "x.k": "sd", "deep.a.b": "sd", "dy": "api", "sv": "u1", "su": "u1"}
+EXTRA_UNSORTED = {"z": "1", "b": ["y", "x"]}
+# further argument forms of MapAdapter.build, each run for every value (script x http, not the whole product)
+MODES = ["noappend", "scheme-param", "protocol-relative", "multidict"]
+
+
 def make_values(ep, v):
+    if ep == "sv":
+        return {"v": v, "user": "u1"}
     if ep == "two":
         return {"v": v, "w": 3}
     if ep == "list":
@@ -190,10 +254,19 @@ CONVERSE_PATHS = {
                 "/sfd/0012", "/imm/5", "/f/1.5", "/sf/-1.5", "/any/a", "/u/" + str(U1), "/p/a/b", "/pb/a/b/",
                 "/pe/a/b/edit", "/pp/k/a/b", "/sub/m/a", "/def/", "/def/2", "/defs/", "/defs/é/"],
     "defrev": ["/list/", "/list/2/10", "/list/1/5", "/k/", "/k/é/", "/sub/n/", "/sub/n/2"],
+    "fact": ["/e/a", "/tpl/", "/tpl/x", "/a1/a2/n/a", "/t/tp/a/b"],
+}
+# what some of those paths must denote (rule factories have to pass templates / defaults / prefixes on)
+CONVERSE_EXPECT = {
+    ("fact", "/tpl/"): ("tpl.show", {"v": "idx"}), ("fact", "/tpl/x"): ("tpl.show", {"v": "x"}),
+    ("fact", "/e/a"): ("ep.e", {"v": "a"}), ("fact", "/a1/a2/n/a"): ("nest", {"v": "a"}),
+    ("fact", "/t/tp/a/b"): ("tp", {"v": "a/b"}),
+    ("defrev", "/list/"): ("list", {"page": 1, "per": 10}), ("defrev", "/sub/n/"): ("n", {"v": 1}),
+    ("default", "/def/"): ("def", {"v": 1}), ("default", "/defs/"): ("defs", {"v": "en"}),
 }
 
 
-def converse_from_path(m, path, script, scheme):
+def converse_from_path(m, path, script, scheme, cfg=None):
     ad = m.bind(SERVER, script_name=script, subdomain="", url_scheme=scheme)
     try:
         ep, values = ad.match(path)
@@ -201,6 +274,9 @@ def converse_from_path(m, path, script, scheme):
         return "skip-redirect", {}
     except HTTPException as e:
         return "path-does-not-match:" + type(e).__name__, {"path": path}
+    want = CONVERSE_EXPECT.get((cfg, path))
+    if want is not None and (ep != want[0] or not same_values(dict(values), want[1])):
+        return "path-denotes-something-else", {"path": path, "matched": (ep, dict(values)), "expected": want}
     try:
         url = ad.build(ep, dict(values))
     except Exception as e:  # noqa: BLE001
@@ -250,11 +326,18 @@ def expect_qsl(extra):
 
 
 def deliver(url, scheme, script, fe_expected_host=None):
-    """Split a built URL the way a client + server would. -> (host or None, path_info, query string)"""
+    """Split a built URL the way a client + server would. -> (host or None, path_info, query string)
+    scheme: the scheme the URL must carry if it carries one ("" = protocol-relative expected)."""
     root = script.rstrip("/")
     if url.startswith("/") and not url.startswith("//"):
         host = None
         rest = url
+    elif url.startswith("//"):
+        if scheme != "":
+            return ("scheme", "(protocol-relative)")
+        sp = urlsplit(url)
+        host = sp.netloc
+        rest = url[2 + len(sp.netloc):]
     else:
         sp = urlsplit(url)
         if sp.scheme != scheme:
@@ -269,29 +352,56 @@ def deliver(url, scheme, script, fe_expected_host=None):
     return host, unquote(sp.path[len(root):]), sp.query
 
 
-def round_trip(m, cfg, ep, v, script, fe, scheme, extra):
+def round_trip(m, cfg, ep, v, script, fe, scheme, extra, mode=None):
     """Returns (problem or None, info dict)."""
     values = make_values(ep, v)
-    bsub = None if cfg == "host" else ""
+    real, method = EP_REAL.get(ep, (ep, None))
+    is_ws = ep in WS_EPS
+    bsub = None if cfg in ("host", "defsub") else ""
+    home = "www" if cfg == "defsub" else ""
     ad = m.bind(SERVER, script_name=script, subdomain=bsub, url_scheme=scheme)
+    if cfg == "sorted" and extra:
+        extra = EXTRA_UNSORTED
     bv = dict(values)
     if extra:
         bv.update(extra)
+    kw = {}
+    if method is not None:
+        kw["method"] = method
+    want_scheme = scheme
+    if is_ws:
+        want_scheme = "wss" if scheme == "https" else "ws"     # "Always build WebSocket routes with the scheme"
+    if mode == "noappend":
+        kw["append_unknown"] = False                           # unknown values are NOT appended as query
+    elif mode == "scheme-param":
+        other = "http" if scheme == "https" else "https"
+        kw["url_scheme"] = other
+        want_scheme = ("wss" if other == "https" else "ws") if is_ws else other
+    elif mode == "protocol-relative":
+        kw["url_scheme"] = ""
+        want_scheme = "ws" if is_ws else ""        # no scheme given: a websocket URL still needs one, plain ws
+    arg = MultiDict([(k, x) for k, val in bv.items() for x in (val if isinstance(val, list) else [val])]) \
+        if mode == "multidict" else bv
     try:
-        url = ad.build(ep, bv, force_external=fe)
+        url = ad.build(real, arg, force_external=fe, **kw)
     except Exception as e:  # noqa: BLE001
         return "build-exception:" + type(e).__name__, {"error": repr(e)}
-    d = deliver(url, scheme, script)
+    d = deliver(url, want_scheme, script)
     if len(d) == 2:
         return "url-" + d[0], {"url": url, "detail": d[1]}
     host, pi, query = d
+    rscheme = want_scheme or scheme                            # the scheme the request arrives with
     # which adapter receives the request
     if host is None:
+        if is_ws:
+            return "websocket-url-not-external", {"url": url}
         ad2 = ad
         crossed = False
+        if cfg != "host" and EP_SUB.get(ep, home) != home:
+            return "wrong-subdomain", {"url": url, "expected": EP_SUB[ep]}
     else:
         if cfg == "host":
-            ad2 = m.bind(host, script_name=script, url_scheme=scheme)
+            ad2 = m.bind(host, script_name=script, url_scheme=rscheme)
             crossed = host != SERVER
         else:
             if host == SERVER:
@@ -300,30 +410,36 @@ def round_trip(m, cfg, ep, v, script, fe, scheme, extra):
                 sub = host[: -len(SERVER) - 1]
             else:
                 return "url-host", {"url": url, "host": host}
-            ad2 = m.bind(SERVER, script_name=script, subdomain=sub, url_scheme=scheme)
-            crossed = sub != ""
-        if not fe and not crossed:
+            if sub != EP_SUB.get(ep, home):
+                return "wrong-subdomain", {"url": url, "expected": EP_SUB.get(ep, home)}
+            ad2 = m.bind(SERVER, script_name=script, subdomain=sub, url_scheme=rscheme)
+            crossed = sub != home
+        if not fe and not crossed and not is_ws:
             return "external-without-need", {"url": url}
     if fe and host is None:
         return "not-external", {"url": url}
-    if parse_qsl(query, keep_blank_values=True) != expect_qsl(extra):
+    want_q = [] if mode == "noappend" else expect_qsl(extra)
+    got_q = parse_qsl(query, keep_blank_values=True)
+    if (sorted(got_q) != sorted(want_q)) if cfg == "sorted" else (got_q != want_q):
         return "query", {"url": url, "query": query}
+    if cfg == "sorted" and got_q != sorted(got_q):
+        return "query-not-sorted", {"url": url, "query": query}
     try:
-        got = ad2.match(pi)
+        got = ad2.match(pi, method=method)
     except RequestRedirect as e:
         return "match-redirect", {"url": url, "path_info": pi, "to": e.new_url}
     except HTTPException as e:
         return "match-" + type(e).__name__, {"url": url, "path_info": pi}
     except Exception as e:  # noqa: BLE001
         return "match-exception:" + type(e).__name__, {"url": url, "path_info": pi, "error": repr(e)}
-    if got[0] != ep or not same_values(dict(got[1]), values):
+    if got[0] != real or not same_values(dict(got[1]), values):
         return "values-differ", {"url": url, "path_info": pi, "got": (got[0], dict(got[1]))}
     # converse: the URL built from the match result is the URL that was matched
     bv2 = dict(got[1])
     if extra:
         bv2.update(extra)
     try:
-        url2 = ad.build(got[0], bv2, force_external=fe)
+        url2 = ad.build(got[0], bv2, force_external=fe, **kw)
     except Exception as e:  # noqa: BLE001
         return "rebuild-exception:" + type(e).__name__, {"url": url, "error": repr(e)}
     if url2 != url:
@@ -343,7 +459,7 @@ def run_unit(unit, R, tier):
         m = Map(factory(), **kw)
         for path in CONVERSE_PATHS[cfg]:
             for scheme in ("http", "https"):
-                problem, info = converse_from_path(m, path, script, scheme)
+                problem, info = converse_from_path(m, path, script, scheme, cfg)
                 R.ev()
                 R.outcome(("converse", problem))
                 if problem == "skip-redirect":
@@ -385,6 +501,20 @@ def run_unit(unit, R, tier):
                                     {"kind": "roundtrip", "cfg": cfg, "endpoint": ep, "value": enc_value(v),
                                      "script": script, "fe": fe, "scheme": scheme, "extra": extra,
                                      "problem": problem, "info": {k: repr(x) for k, x in info.items()}})
+        # the other argument forms of build(): every value, both schemes, with the list-valued extra
+        for mode in MODES:
+            for scheme in ("http", "https"):
+                fe = mode != "noappend" and mode != "multidict"
+                problem, info = round_trip(m, cfg, ep, v, script, fe, scheme, EXTRAS[2], mode)
+                R.ev()
+                R.outcome((ep, mode, problem))
+                if problem is None:
+                    R.use("mode:" + mode)
+                else:
+                    R.violation(f"roundtrip:{mode}:{problem}",
+                                {"kind": "roundtrip", "cfg": cfg, "endpoint": ep, "value": enc_value(v),
+                                 "script": script, "fe": fe, "scheme": scheme, "extra": EXTRAS[2], "mode": mode,
+                                 "problem": problem, "info": {k: repr(x) for k, x in info.items()}})
 
 
 def enc_value(v):
@@ -405,7 +535,8 @@ def dec_value(v):
 
 def finalize(R, tier):
     need = ({"cfg:" + c for c in CONFIGS} | {"ep:" + e for _f, _k, eps in CONFIGS.values() for e in eps}
-            | {"script:" + s for s in SCRIPTS} | {"quoted", "crossed-host", "query", "external", "converse-from-path"})
+            | {"script:" + s for s in SCRIPTS} | {"quoted", "crossed-host", "query", "external", "converse-from-path"}
+            | {"mode:" + x for x in MODES})
     missing = need - R.used
     if missing:
         raise core.Broken(f"vacuity: never exercised {sorted(missing)}")
@@ -418,7 +549,7 @@ def finalize(R, tier):
 def replay(rec):
     if rec.get("kind") == "converse":
         factory, kw, _eps = CONFIGS[rec["cfg"]]
-        problem, info = converse_from_path(Map(factory(), **kw), rec["path"], rec["script"], rec["scheme"])
+        problem, info = converse_from_path(Map(factory(), **kw), rec["path"], rec["script"], rec["scheme"], rec["cfg"])
         return problem not in (None, "skip-redirect"), f"path={rec['path']!r} script={rec['script']!r} problem={problem} info={info}"
     if rec.get("kind") != "roundtrip":
         return True, rec.get("traceback", "unit exception")
@@ -428,8 +559,9 @@ def replay(rec):
     extra = rec["extra"]
     if extra:
         extra = {k: (list(x) if isinstance(x, (list, tuple)) else x) for k, x in extra.items()}
-    problem, info = round_trip(m, rec["cfg"], rec["endpoint"], v, rec["script"], rec["fe"], rec["scheme"], extra)
-    text = (f"config={rec['cfg']} endpoint={rec['endpoint']} values={make_values(rec['endpoint'], v)!r} "
+    problem, info = round_trip(m, rec["cfg"], rec["endpoint"], v, rec["script"], rec["fe"], rec["scheme"], extra,
+                               rec.get("mode"))
+    text = (f"config={rec['cfg']} endpoint={rec['endpoint']} mode={rec.get('mode')} values={make_values(rec['endpoint'], v)!r} "
             f"script_name={rec['script']!r} force_external={rec['fe']} scheme={rec['scheme']} extra={extra!r}\n"
             f"problem={problem}\ninfo={info}")
     return problem is not None, text
